@@ -61,9 +61,11 @@ def gen_history(rng, B=None, ops_len=None):
         elif r < 0.40: ops.append({'op': 'grow', 'ids': rng.sample(range(1, B + 1), rng.randint(1, B)), 'via': 'crop'})
         elif r < 0.55:
             ids = rng.sample(range(1, B + 1), rng.randint(1, B))
-            ops.append({'op': 'grow', 'ids': ids, 'via': 'crop', 'fail': [list(rng.choice(locs))]})
+            ops.append({'op': 'grow', 'ids': ids, 'via': rng.choice(['crop', 'crop', 'fn']), 'fail': [list(rng.choice(locs))],
+                        'exc': rng.choice(['ValueError', 'ValueError', 'StopIteration', 'KeyError', 'ZeroDivisionError', 'OSError'])})
         elif r < 0.63: ops.append({'op': 'growmissing'})
-        elif r < 0.68: ops.append({'op': 'growmissing', 'fail': [list(rng.choice(locs))]})
+        elif r < 0.68: ops.append({'op': 'growmissing', 'fail': [list(rng.choice(locs))],
+                                   'exc': rng.choice(['ValueError', 'StopIteration', 'RuntimeError'])})
         elif r < 0.80: ops.append({'op': 'delres', 'id': rng.randint(1, B)})
         elif r < 0.85: ops += [{'op': 'corrupt', 'id': rng.randint(1, B)}, {'op': 'checkbad'}]
         elif r < 0.88: ops.append({'op': 'checkbad'})
@@ -94,7 +96,9 @@ def cases(ctx):
                 out.append(h)
     for h in out:
         ctx.count('B', h['B']); ctx.count('len', len(h['ops']))
-        for o in h['ops']: ctx.count('op', o['op'] + ('+fail' if o.get('fail') else ''))
+        for o in h['ops']:
+            ctx.count('op', o['op'] + ('+fail' if o.get('fail') else ''))
+            if o.get('fail'): ctx.count('failure raised', o.get('exc', 'ValueError'))
         ctx.count('parent_dir', 'relative' if h.get('relative') else 'absolute')
     return out
 
